@@ -2779,22 +2779,16 @@ class Network(Cached):
         :return: Entry [i,j] is the betweenness of the link between i and j,
                  or 0 if i is not linked to j.
         """
-        #  Calculate link betweenness
-        link_betweenness = self.graph.edge_betweenness()
+        #  Calculate link betweenness (directionality is not respected:
+        #  reciprocal links of a directed network count as one link)
+        graph = self.graph.as_undirected() if self.directed else self.graph
+        link_betweenness = graph.edge_betweenness()
 
-        #  Initialize
-        result, ecount = np.zeros((self.N, self.N)), 0
-
-        #  Get graph adjacency list
-        A_list = self.graph.get_adjlist()
-
-        #  Write link betweenness values to matrix
-        for i, Ai in enumerate(A_list):
-            for j in Ai:
-                #  Only visit links once
-                if i < j:
-                    result[i, j] = result[j, i] = link_betweenness[ecount]
-                    ecount += 1
+        #  Write link betweenness values to matrix, each value at the end
+        #  nodes of its own link
+        result = np.zeros((self.N, self.N))
+        for (i, j), value in zip(graph.get_edgelist(), link_betweenness):
+            result[i, j] = result[j, i] = value
         return result
 
     def edge_betweenness(self):
